@@ -15,7 +15,7 @@ func init() {
 		Explanation: "Decides structural necessary conditions of C13: (R-C13-1) install => flush: every post-publication change of the active set (install, replacement, removal) is followed, before the lock is released, by a call that writes the cache; the poller's shutdown branch flushes before returning; in NewStore the flush is performed whenever a declared name had to be stubbed (flag set in the same block as the stub) and initialisation succeeded; " +
 			"(R-C13-2) one complete document: the bytes handed to Cache.Write are exactly json.Marshal of the live map Store.active.m, in one call; (R-C13-3) FileCache.Write is a single atomicfile.WriteFile(path, data, owner-only constant mode) and the package creates no other file except the cache directory (0700); " +
 			"(R-C13-4) the cache document's wire signature (computed from go/types) equals the documented one, and the file-backed client's reader type agrees with it on the \"secret\" object (Value base64, Version number); NewFileClient skips only entries with empty name, nil secret, version <= 0 or empty value and prefers TextValue only when non-empty; " +
-			"(R-C13-5) a bad cache never fails the start: no error return of NewStore depends on the cache read, its decoding or its validity, and on the decode-error and invalid edges the map is cleared before anything else uses it; (R-C13-7) the decoded map is nil-tested or re-created before anything is assigned into it (the document `null` decodes into a nil map); (R-C13-6) the validity gate rejects an empty key, a nil entry and a nil Secret for every entry -- exactly the pointer levels later code dereferences unchecked; (R-C13-9) FileCache.Read reads the whole file (os.ReadFile / io.ReadAll of the opened file, no bounded or partial read); (R-C13-8) Store.cache is assigned only in the Store literal, from StoreConfig.Cache (through an accessor that returns nothing else).",
+			"(R-C13-5) a bad cache never fails the start: no error return of NewStore depends on the cache read, its decoding or its validity, and on the decode-error and invalid edges the map is cleared before anything else uses it; (R-C13-7) the decoded map is nil-tested or re-created before anything is assigned into it (the document `null` decodes into a nil map); (R-C13-6) the validity gate rejects an empty key, a nil entry and a nil Secret for every entry -- exactly the pointer levels later code dereferences unchecked; (R-C13-9) FileCache.Read reads the whole file (os.ReadFile / io.ReadAll of the opened file, no bounded or partial read); (R-C13-8) Store.cache is assigned only in the Store literal, from StoreConfig.Cache (through an accessor that returns nothing else). (R-C13-1, extended) every way out of the poller passes the shutdown flush, and no flush site of NewStore reachable from a stub insert runs unless initializeActive succeeded.",
 		NotDecided:  "What encoding/json does with arbitrary byte strings (no panic: trusted); crash behaviour of the file write (C04's R-C04-2 covers the routine).",
 		Trusted:     append([]string{"encoding/json never panics on malformed input and leaves a partially decoded value", "atomicfile.WriteFile is atomic (checked in C04)"}, commonTrusted...),
 		Assumptions: []string{},
